@@ -4,6 +4,7 @@ package main
 
 import (
 	"fmt"
+	"go/token"
 	"go/types"
 	"math"
 	"math/big"
@@ -334,6 +335,15 @@ func (m *Machine) intercept(fn *ssa.Function, args []Val, caller *frame, site ss
 			m.noteBigWrite(args[0])
 			return args[0]
 		}
+	case "(*math/big.Int).Rsh":
+		return func() Val {
+			c := m.concreteValue(args[2].(*Term), "big.Rsh")
+			bigOf(m, args[0]).Rsh(bigOf(m, args[1]), uint(c))
+			m.noteBigWrite(args[0])
+			return args[0]
+		}
+	case "(*math/big.Int).Uint64":
+		return func() Val { return BV(64, bigOf(m, args[0]).Uint64()) }
 	case "(*math/big.Int).Lsh":
 		return func() Val {
 			c := m.concreteValue(args[2].(*Term), "big.Lsh")
@@ -378,7 +388,35 @@ func (m *Machine) intercept(fn *ssa.Function, args []Val, caller *frame, site ss
 		return func() Val {
 			ss, ok := m.strSliceToNative(args[0])
 			if !ok {
-				m.unmodelled("sort.Strings on symbolic strings")
+				// symbolic elements: insertion sort, every comparison a
+				// solver-decided branch (the order is concrete on each path)
+				s := args[0].(SliceV)
+				nsym := 0
+				for i := 0; i < s.Len; i++ {
+					if !s.A.E[s.Off+i].V.(*StrV).Conc() {
+						nsym++
+					}
+				}
+				if nsym > 6 || s.Len > 100 {
+					m.unmodelled("sort.Strings on more than 6 symbolic strings")
+				}
+				elems := make([]*StrV, s.Len)
+				for i := range elems {
+					elems[i] = s.A.E[s.Off+i].V.(*StrV)
+				}
+				for i := 1; i < len(elems); i++ {
+					for j := i; j > 0; j-- {
+						if m.branch(m.strCmp(token.LSS, elems[j], elems[j-1]), "sort.Strings comparison") {
+							elems[j], elems[j-1] = elems[j-1], elems[j]
+						} else {
+							break
+						}
+					}
+				}
+				for i, e := range elems {
+					m.storeCell(s.A.E[s.Off+i], e, "sort.Strings")
+				}
+				return nil
 			}
 			taint := m.strSliceTaint(args[0])
 			sort.Strings(ss)
